@@ -1270,6 +1270,7 @@ def judge_cross(mops, events, infos=None):
                 errs.append(("C20:roundtrip:stale-after-return",
                              "%s returned with audio.volume %r before the device's confirmation was taken in (then %r)"
                              % (name, at_ret, settled)))
+        fw = [unhex(e[1]) for e in evs if e[0] == "fwd"]
         dv = [unhex(e[1]) for e in evs if e[0] == "dev"]
         ex = [e[1] for e in evs if e[0] == "exc"]
         rt = [unhex(e[1]) for e in evs if e[0] == "ret"]
